@@ -54,6 +54,10 @@ def jsonable(x):
     return repr(x)
 
 
+def _size(case):
+    return len(json.dumps(case, sort_keys=True))
+
+
 class Partial:
     """What one worker task (or the parent) measured. Mergeable."""
 
@@ -82,8 +86,10 @@ class Partial:
 
     def violation(self, signature, case, message):
         """Keep the first (enumeration is smallest-first, so minimal) case per signature."""
-        if signature not in self.violations:
-            self.violations[signature] = (jsonable(case), str(message)[:2000])
+        case = jsonable(case)
+        old = self.violations.get(signature)
+        if old is None or _size(case) < _size(old[0]):
+            self.violations[signature] = (case, str(message)[:2000])
 
     def merge(self, other):
         self.evaluations += other.evaluations
@@ -97,7 +103,8 @@ class Partial:
         for k, v in other.counters.items():
             self.counters[k] = self.counters.get(k, 0) + v
         for sig, cm in other.violations.items():
-            if sig not in self.violations:
+            old = self.violations.get(sig)
+            if old is None or _size(cm[0]) < _size(old[0]):
                 self.violations[sig] = cm
 
 
